@@ -22,6 +22,7 @@ mod simop;
 mod c19;
 mod c13;
 mod c12;
+mod c07;
 mod scen;
 mod wirefmt;
 mod util;
@@ -103,6 +104,9 @@ fn main() {
                     }
                     "C13" => c13::generate(&mut rng, &tier, &mut emit),
                     "C12" => c12::generate(&mut rng, &tier, &mut emit),
+                    "C07" => c07::generate_c07(&mut rng, &tier, &mut emit),
+                    "C09" => c07::generate_c09(&mut rng, &tier, &mut emit),
+                    "C06" => c07::generate_c06(&mut rng, &tier, &mut emit),
                     "C08" => c08::generate(&mut rng, &tier, &mut emit),
                     "C16" => c16::generate(&mut rng, &tier, &mut emit),
                     "C18" => c18::generate(&mut rng, &tier, &mut emit),
